@@ -8,6 +8,7 @@ R2 forward-seek shortcut (T-cmp rows 13, 14): after next returned K every head i
    so only sign(target, cur_key) = GT may skip the full re-seek; in the forward loop a head is
    re-sought iff sign(target, head) = GT.
 R3 seek clears `finished` and `pending` first and returns success on every path.
+R5 heap discipline (rules/heaprule.py): the heap rebuilt by a seek (heap_heapify) and maintained by pop / replace is a heap for every ordering of up to 5 (6 thorough) heads.
 """
 from .common import *
 
@@ -216,3 +217,7 @@ def run(ctx, res):
                             res.check(p.ret() is not None and p.ret()[0] == "s" and "mtbl_iter_init" in p.ret()[1],
                                       "C05.R1", site(f, "non-empty-result"), "entries present: iterator returned",
                                       "non-empty lookup does not return an iterator", f.loc(f.body), p.describe(f))
+
+    # ---- heap discipline ----------------------------------------------------------------------
+    from . import heaprule
+    heaprule.check(ctx, res, "C05.R5")
